@@ -252,7 +252,7 @@ impl<'a> WorldSat<'a> {
                 }
                 HashKind::Hash160 => inp.hash160_preimages.get(&hash160::Hash::from_slice(&h.digest).unwrap()).map(|p| &p[..] == &h.preimage[..]),
             };
-            if have == Some(true) {
+            if have == Some(true) && h.usable {
                 s.preimages.insert(h.id);
             }
         }
@@ -423,16 +423,16 @@ pub fn signer_sign(
                 let inp = &mut psbt.inputs[idx];
                 match h.kind {
                     HashKind::Sha256 => {
-                        inp.sha256_preimages.insert(sha256::Hash::from_slice(&h.digest).unwrap(), h.preimage.to_vec());
+                        inp.sha256_preimages.insert(sha256::Hash::from_slice(&h.digest).unwrap(), h.psbt_value.clone());
                     }
                     HashKind::Hash256 => {
-                        inp.hash256_preimages.insert(bitcoin::hashes::sha256d::Hash::from_slice(&h.digest).unwrap(), h.preimage.to_vec());
+                        inp.hash256_preimages.insert(bitcoin::hashes::sha256d::Hash::from_slice(&h.digest).unwrap(), h.psbt_value.clone());
                     }
                     HashKind::Ripemd160 => {
-                        inp.ripemd160_preimages.insert(ripemd160::Hash::from_slice(&h.digest).unwrap(), h.preimage.to_vec());
+                        inp.ripemd160_preimages.insert(ripemd160::Hash::from_slice(&h.digest).unwrap(), h.psbt_value.clone());
                     }
                     HashKind::Hash160 => {
-                        inp.hash160_preimages.insert(hash160::Hash::from_slice(&h.digest).unwrap(), h.preimage.to_vec());
+                        inp.hash160_preimages.insert(hash160::Hash::from_slice(&h.digest).unwrap(), h.psbt_value.clone());
                     }
                 }
                 stats.preimages += 1;
@@ -645,7 +645,9 @@ pub fn god_sat_slots<'a>(env: &'a crate::sim::Env, tx: &Transaction, idx: usize,
         return sat;
     }
     for h in hashes {
-        sat.preimages.insert(*h);
+        if env.uni.hashes[*h].usable {
+            sat.preimages.insert(*h);
+        }
     }
     let ic = &env.inputs[idx];
     let secp = &env.uni.secp;
